@@ -196,9 +196,23 @@ def playback(overlay, package, harness, release_too=False):
     p1 = subprocess.run(["bash", "-c", sh], cwd=overlay.dir, env=env, capture_output=True, text=True)
     test_src = ""
     test_names = []
+    blk = re.compile(r"/// Test generated for harness.*?\n#\[test\]\nfn (kani_concrete_playback_\w+)\(\) \{.*?\n\}\n", re.S)
     for p, old in pre.items():
         new = open(p).read()
         if new != old:
+            # Kani names a generated test after a hash of its concrete values: two checks with the same values give two
+            # definitions of one name, which does not compile. Keep the first of each name.
+            seen = set()
+
+            def _dedupe(m):
+                if m.group(1) in seen:
+                    return ""
+                seen.add(m.group(1))
+                return m.group(0)
+            deduped = blk.sub(_dedupe, new)
+            if deduped != new:
+                open(p, "w").write(deduped)
+                new = deduped
             if new.startswith(old):
                 test_src += new[len(old):]
             else:
@@ -227,6 +241,9 @@ def playback(overlay, package, harness, release_too=False):
         if failed:
             ok_any = True
         out[prof + "_log"] = txt[-1500:]
+    if not ok_any and all(out.get(pf) == "error" for pf in out if not pf.endswith("_log")):
+        # the generated unit test did not build or run: nothing is known about reproduction
+        return dict(reproduced=None, test=test_src, profiles=out, log=out.get("dev_log", "")[-1500:])
     return dict(reproduced=ok_any, test=test_src, profiles=out, log="")
 
 
